@@ -5,6 +5,23 @@
 import E2P.Model.Lookup
 namespace E2P
 
+/-! ### XMATCH, binary search modes: the specification on a column that runs strictly in one direction -/
+
+/-- the key equals the lookup value in Python's order (nothing is lower-cased) -/
+def bsEqB (k v : Val) : Bool := bsLt k v == some false && bsLt v k == some false
+
+/-- neighbours strictly ordered in the direction of the column (`rev`: descending) -/
+def strictlyRuns (rev : Bool) : List Val → Bool
+  | a :: b :: rest => ((if rev then bsLt b a else bsLt a b) == some true) && strictlyRuns rev (b :: rest)
+  | _ => true
+
+def sameKind (lookup : Val) (keys : List Val) : Bool :=
+  bsKey lookup && keys.all (fun k => bsKey k && lkind k == lkind lookup)
+
+/-- 1-based position of the key that equals the lookup value -/
+def specBinExact (lookup : Val) (keys : List Val) : Option Nat :=
+  (keys.findIdx? (fun k => bsEqB k lookup)).map (· + 1)
+
 /-- every key is a non-blank value of the lookup value's kind -/
 def allEligible (lookup : Val) (keys : List Val) : Bool :=
   match lkind lookup with
